@@ -1,12 +1,12 @@
 """C06 results do not depend on the SIMD instruction set, C++ level, optimisation level or tuning macros."""
 from .common import *
-from . import c01, c02, c03, c14, c16, c17, c05, c19
+from . import c01, c02, c03, c04, c14, c16, c17, c05, c19
 import random
 
 ID = 'C06'
 LEVEL = 'translation_validation'
 TECHNIQUE = 'translation validation: the same harness corpus is compiled under each configuration and each IR is proved (z3) equal to the configuration-independent scalar reference for all inputs'
-EXPLANATION = ('a fixed seeded corpus of harnesses from C01 C02 C03 C05 C14 C16 C17 C19 is compiled by clang++-14 under every configuration of a '
+EXPLANATION = ('a fixed seeded corpus of harnesses from C01 C02 C03 C04 C05 C14 C16 C17 C19 is compiled by clang++-14 under every configuration of a '
                'covering array over {scalar, SSE2, SSE4.2, AVX, AVX2+FMA, AVX-512} x {C++14, C++17} x {O1, O2, O3 (and O0 in the thorough tier)} '
                'x documented tuning macros; each resulting IR is executed symbolically and proved equal, for all inputs, to the same scalar '
                'reference (ints/bools bit-identical as bit-vectors, floats as exact reals + bounded rounding depth), hence all configurations '
@@ -30,6 +30,10 @@ def corpus(tier, seed):
     out += pick([c for c in c03.cases('quick', cfg, 0) if not c.id.startswith('expl')], 8 * q)
     out += pick([c for c in c05.cases('quick', cfg, 0) if c.id.startswith('fw')], 5 * q)
     out += pick([c for c in c19.cases('quick', cfg, 0) if c.id.startswith(('itr', 'itm'))], 5 * q)
+    # always present: reductions wide enough for every register width and for the HADD variants, strided gathers of >= 16 4-byte lanes
+    must = {'sum_f32_9', 'sum_f32_17', 'sum_f64_9', 'inner_f32_17', 'norm_f32_9', 'prod_f32_9', 'sum_i32_17', 'inner_f64_9'}
+    out += [c for c in c16.cases('quick', cfg, 0) if c.id in must]
+    out += [c for c in c04.cases('quick', cfg, 0) if c.id in ('fixx_f32_40_f0_40_2', 'fixx_i32_2x54_a_f0_54_3', 'fix_i32_36_f1_35_2')]
     ids = set(); res = []
     for c in out:
         if c.id not in ids: ids.add(c.id); res.append(c)
@@ -40,7 +44,7 @@ def cases(tier, cfg, seed): return corpus(tier, seed)
 
 
 def cfgs(tier):
-    cs = [Cfg('scalar', 14, 'O1'), Cfg('sse2', 17, 'O3'), Cfg('sse4', 14, 'O2', ('FASTOR_USE_HADD=1',)), Cfg('avx', 17, 'O1'), Cfg('avx2', 14, 'O3'),
+    cs = [Cfg('scalar', 14, 'O1'), Cfg('sse2', 17, 'O3'), Cfg('sse4', 14, 'O2', ('FASTOR_USE_HADD=1',)), Cfg('avx', 17, 'O1', ('FASTOR_USE_HADD=1',)), Cfg('avx2', 14, 'O3'),
           Cfg('avx512', 14, 'O1'), Cfg('avx2', 17, 'O2', ('FASTOR_MATMUL_OUTER_BLOCK_SIZE=2', 'FASTOR_MATMUL_INNER_BLOCK_SIZE=2')),
           Cfg('avx2', 17, 'O2', ('FASTOR_USE_VECTORISED_EXPR_ASSIGN=1', 'FASTOR_DONT_PERFORM_OP_MIN=1')),
           Cfg('sse2', 14, 'O1', ('FASTOR_ENABLE_RUNTIME_CHECKS=1',)), Cfg('avx512', 17, 'O2', ('FASTOR_TRANS_OUTER_BLOCK_SIZE=2', 'FASTOR_TRANS_INNER_BLOCK_SIZE=2'))]
